@@ -6,6 +6,7 @@ import (
 
 	"github.com/go-kid/ioc/app"
 	"github.com/go-kid/ioc/container"
+	"github.com/go-kid/ioc/container/support"
 	"github.com/go-kid/ioc/definition"
 
 	"verif/internal/core"
@@ -25,6 +26,7 @@ func init() {
 		Parts: []Part{
 			{Name: "runners", Run: c13Run, QuickS: 90, ThoroughS: 900},
 			{Name: "many-runners", Run: c13Many, Workers: 4, QuickS: 30, ThoroughS: 60},
+			{Name: "user-registry", Run: c13UserRegistry, Workers: 4, QuickS: 60, ThoroughS: 120},
 		},
 	})
 }
@@ -520,4 +522,101 @@ func c13Yield4(yield func(c13Case) bool, s []int) bool {
 		}
 	}
 	return true
+}
+
+// ---- a user-supplied singleton registry (app.SetRegistry): the runners registered in it are
+// invoked like those of the default registry
+
+func c13UserRegistry(c *core.Ctx) {
+	type uc struct {
+		Seq  []int `json:"runners"`
+		Fail int   `json:"failing"`
+		Pre  bool  `json:"components_registered_before_the_option"`
+	}
+	gen := func(yield func(uc) bool) {
+		seqs(3, 12, func(s []int) bool {
+			for f := -1; f < len(s); f++ {
+				for _, pre := range []bool{false, true} {
+					if !yield(uc{append([]int{}, s...), f, pre}) {
+						return false
+					}
+				}
+			}
+			return true
+		})
+	}
+	Cases(c, gen, func(c *core.Ctx, cs uc) {
+		rt := &scen.RT{}
+		var comps []any
+		for i, s := range cs.Seq {
+			p := scen.Part{Nm: fmt.Sprintf("r%d", i), O: c12Order(s), RT: rt, Fail: i == cs.Fail}
+			switch {
+			case c12Class(s) == 0:
+				comps = append(comps, &scen.RunP{Part: p})
+			case c12Class(s) == 1:
+				comps = append(comps, &scen.RunO{Part: p})
+			case s == c12Marker:
+				comps = append(comps, &scen.RunM{Part: p})
+			default:
+				comps = append(comps, &scen.RunN{Part: p})
+			}
+		}
+		reg := support.NewRegistry()
+		sp := scen.StartSpec{Ch: envx.Fixed("", nil), Opts: []app.SettingOption{app.SetRegistry(reg)}, Comps: comps}
+		if cs.Pre {
+			// the registry arrives filled
+			for _, x := range comps {
+				reg.RegisterSingleton(x)
+			}
+			sp.Comps = nil
+		}
+		o := scen.Start(sp)
+		c.S.Evaluations++
+		c.S.Programs++
+		c.S.States++
+		c.S.Nontrivial++
+		c.S.Transitions += int64(o.Trace.Calls)
+		key := "C13/user-registry/" + core.Hash(cs)
+		var symn []string
+		for _, s := range cs.Seq {
+			symn = append(symn, c12Sym(s))
+		}
+		desc := fmt.Sprintf("runners %v in a user-supplied registry (filled before the start: %v), failing %d", symn, cs.Pre, cs.Fail)
+		var classes, orders []int
+		seen := map[int]int{}
+		for _, e := range rt.Log {
+			var i int
+			if _, err := fmt.Sscanf(e, "run:r%d", &i); err == nil {
+				seen[i]++
+				classes = append(classes, c12Class(cs.Seq[i]))
+				orders = append(orders, c12Order(cs.Seq[i]))
+			}
+		}
+		switch {
+		case o.Panic != "" || o.Abort != "":
+			c.Outcome("user-registry/panic")
+			c.Report(key, "panic", desc+": "+o.Panic+o.Abort, cs)
+		case cs.Fail < 0 && o.Err != nil:
+			c.Outcome("user-registry/start-failed")
+			c.Report(key, "start-failed", desc+": "+scen.FirstLine(o.Err), cs)
+		case cs.Fail >= 0 && o.Err == nil:
+			c.Outcome("user-registry/error-swallowed")
+			c.Report(key, "error-swallowed", fmt.Sprintf("%s: the failing runner's error did not make Run fail (runner log %v)", desc, rt.Log), cs)
+		case cs.Fail < 0 && len(rt.Log) != len(cs.Seq):
+			c.Outcome("user-registry/not-once")
+			c.Report(key, "not-exactly-once", fmt.Sprintf("%s: %d of %d runners were invoked (%v)", desc, len(rt.Log), len(cs.Seq), rt.Log), cs)
+		case contractViolation(classes, orders) != "":
+			c.Outcome("user-registry/order")
+			c.Report(key, "order-contract", fmt.Sprintf("%s: runners ran as %v: %s", desc, rt.Log, contractViolation(classes, orders)), cs)
+		default:
+			for i, n := range seen {
+				if n > 1 {
+					c.Outcome("user-registry/not-once")
+					c.Report(key, "not-exactly-once", fmt.Sprintf("%s: runner r%d was invoked %d times", desc, i, n), cs)
+					return
+				}
+			}
+			c.Outcome("user-registry/ok")
+		}
+	})
 }
